@@ -1,0 +1,35 @@
+//go:build verif
+
+package freelist
+
+import "go.etcd.io/bbolt/internal/common"
+
+// Verification hooks (build tag "verif"): read-only views of the allocator state
+// for the external verification harness.
+
+// VerifFreeIDs returns the ids currently free (allocatable), sorted.
+func VerifFreeIDs(f Interface) []common.Pgid {
+	ids := f.freePageIds()
+	out := make([]common.Pgid, len(ids))
+	copy(out, ids)
+	return out
+}
+
+// VerifPendingEntry is one pending page: freed by Txid, allocated by Alloc (0 = unknown).
+type VerifPendingEntry struct {
+	Txid  common.Txid
+	ID    common.Pgid
+	Alloc common.Txid
+}
+
+// VerifPending returns every pending page with the transaction that freed it and
+// the transaction that allocated it.
+func VerifPending(f Interface) []VerifPendingEntry {
+	var out []VerifPendingEntry
+	for tid, txp := range f.pendingPageIds() {
+		for i, id := range txp.ids {
+			out = append(out, VerifPendingEntry{tid, id, txp.alloctx[i]})
+		}
+	}
+	return out
+}
